@@ -495,7 +495,18 @@ def cache_facts(repo):
     for needle in ("isinstance(value, Mapping)", "isinstance(value, Sequence)", "isinstance(value, Set)", "return frozenset(aggregation.items())"):
         if needle not in src:
             raise TranslationError("F21", "mapping_to_frozenset", "case list changed: missing " + needle)
-    return {"cache_sites": sites, "cache_typed_scalars": typed}
+    # lazily created SchemaValidator: the module global is assigned once, as the LAST statement of the creation block
+    ds = find_class(mod, 'DefinitionSchema')
+    new = find_func(ds, '__new__')
+    ifs = [st for st in new.body if isinstance(st, ast.If) and "'SchemaValidator' not in globals()" in ast.unparse(st.test)]
+    if len(ifs) != 1:
+        raise TranslationError("F21", "DefinitionSchema.__new__", "lazy creation block not found")
+    body = [st for st in ifs[0].body if not isinstance(st, ast.Global)]
+    assigns = [i for i, st in enumerate(body) if isinstance(st, ast.Assign) and any(isinstance(t, ast.Name) and t.id == 'SchemaValidator' for t in st.targets)]
+    mutations = [i for i, st in enumerate(body) if 'SchemaValidator.' in ast.unparse(st) and isinstance(st, (ast.Assign, ast.AugAssign))
+                 and any(ast.unparse(t).startswith('SchemaValidator.') for t in getattr(st, 'targets', [getattr(st, 'target', None)]) if t is not None)]
+    publish_last = len(assigns) == 1 and assigns[0] == len(body) - 1 and not mutations
+    return {"cache_sites": sites, "cache_typed_scalars": typed, "lazy_publish_last": publish_last}
 
 
 def introspect(repo):
@@ -561,7 +572,8 @@ def to_coq(F):
     L.append("  f_cache_per_class := %s;" % ("true" if F['cache_per_class'] else "false"))
     L.append("  f_handler_add_copies := %s;" % ("true" if F['handler_add_copies'] else "false"))
     L.append("  f_write_sites := %s;" % clist("(%s, %s, %d%%nat, %s)" % (cs(a), cs(b), d, "true" if c else "false") for a, b, d, c, k in F['write_sites']))
-    L.append("  f_entry_copies := %s" % ("true" if (F['entry_copies_document'] and F['schema_copied_before_resolution']) else "false"))
+    L.append("  f_entry_copies := %s;" % ("true" if (F['entry_copies_document'] and F['schema_copied_before_resolution']) else "false"))
+    L.append("  f_lazy_publish_last := %s" % ("true" if F['lazy_publish_last'] else "false"))
     L.append("|}.")
     return "\n".join(L) + "\n"
 
